@@ -81,6 +81,9 @@ def Expr.tokenLiteral : Expr → Str
   | .funcDef n _ _ => n
   | .localE n => n
 
+/-- the braces `BlockStatement.String()` puts around the lines of a block -/
+def blockWrap (lines : Str) : Str := "\n{\n".toList ++ lines ++ "}\n".toList
+
 mutual
   /-- `String()` of an expression node -/
   def Expr.str : Expr → Str
@@ -100,15 +103,15 @@ mutual
     | .call fn args => fn.str ++ ['('] ++ joinStr [',', ' '] (Expr.strs args) ++ [')']
     | .assign n v => n ++ ['='] ++ v.str
     | .ifE c cons alt =>
-        "\nif (".toList ++ c.str ++ ") ".toList ++ Stmt.blockStr cons ++
+        "\nif (".toList ++ c.str ++ ") ".toList ++ blockWrap (Stmt.linesStr cons) ++
           (match alt with
            | none => []
-           | some a => "else".toList ++ Stmt.blockStr a)
-    | .whileE c body => "while (".toList ++ c.str ++ ") {".toList ++ Stmt.blockStr body ++ ['}']
-    | .foreachE _ ident v body => "foreach ".toList ++ ident ++ [' '] ++ v.str ++ Stmt.blockStr body
+           | some a => "else".toList ++ blockWrap (Stmt.linesStr a))
+    | .whileE c body => "while (".toList ++ c.str ++ ") {".toList ++ blockWrap (Stmt.linesStr body) ++ ['}']
+    | .foreachE _ ident v body => "foreach ".toList ++ ident ++ [' '] ++ v.str ++ blockWrap (Stmt.linesStr body)
     | .switchE v choices => "\nswitch (".toList ++ v.str ++ ")\n{\n".toList ++ Case.strs choices ++ "}\n".toList
     | .funcDef n params body =>
-        "function ".toList ++ n ++ ['('] ++ joinStr [',', ' '] params ++ [')'] ++ Stmt.blockStr body
+        "function ".toList ++ n ++ ['('] ++ joinStr [',', ' '] params ++ [')'] ++ blockWrap (Stmt.linesStr body)
     | .localE n => "local ".toList ++ n ++ ";\n".toList
   def Expr.strs : List Expr → List Str
     | [] => []
@@ -119,9 +122,6 @@ mutual
   def Stmt.str : Stmt → Str
     | .expr e => e.str
     | .ret e => "return ".toList ++ e.tokenLiteral ++ [';']
-  /-- `BlockStatement.String()` -/
-  def Stmt.blockStr : List Stmt → Str
-    | ss => "\n{\n".toList ++ Stmt.linesStr ss ++ "}\n".toList
   def Stmt.linesStr : List Stmt → Str
     | [] => []
     | s :: ss => [' '] ++ s.str ++ ['\n'] ++ Stmt.linesStr ss
@@ -129,7 +129,10 @@ mutual
     | [] => []
     | .mk isDef exprs block :: cs =>
         (if isDef then "default ".toList else "case ".toList ++ joinStr [','] (Expr.strs exprs))
-          ++ Stmt.blockStr block ++ Case.strs cs
+          ++ blockWrap (Stmt.linesStr block) ++ Case.strs cs
 end
+
+/-- `BlockStatement.String()` -/
+def Stmt.blockStr (ss : List Stmt) : Str := blockWrap (Stmt.linesStr ss)
 
 end EvalFilter
